@@ -132,6 +132,8 @@ def define(definer, name, pt, body):
         return '\\newcommand\\%s%s{%s}' % (name, nspec, body)
     if definer == 'newcopt':
         return '\\newcommand{\\%s}[%d][dv]{%s}' % (name, n, body)
+    if definer == 'newcopt0':     # empty default
+        return '\\newcommand{\\%s}[%d][]{%s}' % (name, n, body)
     if definer == 'renew':
         return '\\newcommand{\\%s}{zz}\\renewcommand{\\%s}%s{%s}' % (name, name, nspec, body)
     raise ValueError(definer)
@@ -143,6 +145,7 @@ def definers_for(pt, wrapper):
         ds += ['newc', 'newcnb', 'renew']
         if PTS[pt][1] >= 1 and pt != 'p9':
             ds.append('newcopt')
+            ds.append('newcopt0')
     return ds
 
 
@@ -193,14 +196,14 @@ def family_single(pt, wrapper, full):
     """old def; wrapper(new def; use); use after"""
     ptext, n = PTS[pt]
     for definer in definers_for(pt, wrapper):
-        calls = opt_call_variants(pt, full) if definer == 'newcopt' else call_variants(pt, full)
+        calls = opt_call_variants(pt, full) if definer in ('newcopt', 'newcopt0') else call_variants(pt, full)
         for tmpl in BODY_TMPLS:
             if tmpl == 'lit' and n > 1:
                 continue
             old = define('def', A, pt, body_for('all', n, 'o'))
-            if definer in ('newc', 'newcnb', 'newcopt', 'renew'):
+            if definer in ('newc', 'newcnb', 'newcopt', 'newcopt0', 'renew'):
                 old = ''            # \newcommand does not redefine an existing \def in LaTeX
-            if definer == 'newcopt':
+            if definer in ('newcopt', 'newcopt0'):
                 oldcalls = None
             new = define(definer, A, pt, body_for(tmpl, n, 'n'))
             for ci, call in enumerate(calls):
@@ -209,7 +212,7 @@ def family_single(pt, wrapper, full):
                         continue    # \csname calls on every third spelling
                     use = name_use(A, via) + call
                     after = ':' + use if (old or wrapper == 'top' or definer == 'gdef') else ''
-                    if definer == 'newcopt' and wrapper != 'top':
+                    if definer in ('newcopt', 'newcopt0') and wrapper != 'top':
                         continue
                     yield PRE + old + wrap(wrapper, new + use) + after, n
 
@@ -233,7 +236,7 @@ def family_chain(apt, bpt, wrapper, full):
     else:
         bodies = ['\\zzA%s.%s;' % (p1, p2), '\\zzA{%s}.{%s};' % (p2, p1), '{\\zzA.%s;}' % p1]
     for definer in definers_for(bpt, wrapper):
-        if definer in ('renew', 'newcnb', 'newcopt'):
+        if definer in ('renew', 'newcnb', 'newcopt', 'newcopt0'):
             continue
         for body in bodies:
             bdef = define(definer, B, bpt, 'b' + body)
